@@ -62,7 +62,16 @@ def run(ctx: core.Ctx):
             continue
         exp = [[[to_float(d) for d in per_out] for per_out in per_deg] for per_deg in c["expect"]]
         try:
-            rule = fl.Rule.create(f"if x is a then {ct}", e)
+            # every second consequent is loaded into ONE long-lived rule whose text is replaced and which is loaded again without an
+            # unload in between: it then holds the conclusions of its current text and nothing else
+            run.__dict__["n"] = run.__dict__.get("n", 0) + 1
+            if run.__dict__["n"] % 2 and "rule" in run.__dict__:
+                rule = run.__dict__["rule"]
+                rule.text = f"if x is a then {ct}"
+                rule.load(e)
+            else:
+                rule = fl.Rule.create(f"if x is a then {ct}", e)
+                run.__dict__.setdefault("rule", fl.Rule.create(f"if x is a then {ct}", e))
         except Exception as ex:
             ctx.violation("Rule.create/consequent", case, "a loaded rule", f"{type(ex).__name__}: {ex}")
             continue
